@@ -152,3 +152,169 @@ Proof.
     lia.
 Qed.
 
+
+(* ================================================================ round 2 *)
+Lemma scale_pos : forall a b e, 0 < e -> scale a b e = (a, b * 2 ^ e).
+Proof. intros. unfold scale. destruct (0 <? e) eqn:E; [reflexivity|lia]. Qed.
+
+Lemma pow2_gt0 : forall x, 0 <= x -> 0 < 2 ^ x.
+Proof. intros. apply Z.pow_pos_nonneg; lia. Qed.
+
+(* ---------------------------------------------------------------- normalisation of fdiv *)
+(* with the first-guess exponent e0 the quotient has at least 53 bits *)
+Lemma norm_A : forall a b, 0 < a -> 0 < b ->
+  forall n0 d0, scale a b (Z.log2 a - Z.log2 b - 53) = (n0, d0) -> 2 ^ 52 * d0 <= n0 /\ 0 < d0.
+Proof.
+  intros a b Ha Hb n0 d0 S.
+  destruct (Z.log2_spec a Ha) as [A1 _]. destruct (Z.log2_spec b Hb) as [_ B2].
+  pose proof (Z.log2_nonneg a) as La. pose proof (Z.log2_nonneg b) as Lb.
+  set (la := Z.log2 a) in *. set (lb := Z.log2 b) in *. set (e0 := la - lb - 53) in *.
+  destruct (Z_lt_le_dec 0 e0) as [P|P].
+  - rewrite scale_pos in S by exact P. injection S as <- <-.
+    pose proof (pow2_gt0 e0 ltac:(lia)) as X.
+    assert (E : 2 ^ la = 2 ^ 52 * (2 ^ e0 * 2 ^ Z.succ lb)).
+    { rewrite <- !Z.pow_add_r by lia. f_equal. lia. }
+    set (c := 2 ^ 52) in *. assert (0 < c) by (unfold c; apply pow2_gt0; lia).
+    set (x := 2 ^ e0) in *. set (y := 2 ^ Z.succ lb) in *.
+    split; [|nia].
+    assert (b * x < x * y) by nia.
+    assert (c * (b * x) < c * (x * y)) by (apply Z.mul_lt_mono_pos_l; assumption).
+    lia.
+  - rewrite scale_nonpos in S by exact P. injection S as <- <-.
+    pose proof (pow2_gt0 (- e0) ltac:(lia)) as X.
+    assert (E : 2 ^ la * 2 ^ (- e0) = 2 ^ 52 * 2 ^ Z.succ lb).
+    { rewrite <- !Z.pow_add_r by lia. f_equal. lia. }
+    set (c := 2 ^ 52) in *. assert (0 < c) by (unfold c; apply pow2_gt0; lia).
+    set (x := 2 ^ (- e0)) in *. set (y := 2 ^ Z.succ lb) in *.
+    split; [|lia].
+    assert (2 ^ la * x <= a * x) by nia.
+    assert (c * b < c * y) by (apply Z.mul_lt_mono_pos_l; assumption).
+    lia.
+Qed.
+
+(* if it has 54 bits, one exponent higher it has 53 *)
+Lemma norm_B : forall a b e0 n0 d0 n1 d1, 0 < b ->
+  scale a b e0 = (n0, d0) -> scale a b (e0 + 1) = (n1, d1) ->
+  2 ^ 53 * d0 <= n0 -> 2 ^ 52 * d1 <= n1.
+Proof.
+  intros a b e0 n0 d0 n1 d1 Hb S0 S1 H.
+  change (2 ^ 53) with (2 * 2 ^ 52) in H. set (c := 2 ^ 52) in *.
+  destruct (Z_lt_le_dec 0 e0) as [P|P].
+  - rewrite scale_pos in S0 by lia. rewrite scale_pos in S1 by lia.
+    injection S0 as <- <-. injection S1 as <- <-.
+    rewrite Z.pow_add_r by lia. change (2 ^ 1) with 2. nia.
+  - destruct (Z.eq_dec e0 0) as [Z0|NZ].
+    + subst e0. rewrite scale_nonpos in S0 by lia. rewrite scale_pos in S1 by lia.
+      injection S0 as <- <-. injection S1 as <- <-.
+      change (2 ^ (- 0)) with 1 in H. change (2 ^ (0 + 1)) with 2. lia.
+    + rewrite scale_nonpos in S0 by lia. rewrite scale_nonpos in S1 by lia.
+      injection S0 as <- <-. injection S1 as <- <-.
+      replace (- e0) with (- (e0 + 1) + 1) in H by lia.
+      rewrite Z.pow_add_r in H by lia. change (2 ^ 1) with 2 in H. nia.
+Qed.
+
+Lemma fdiv_exp_normal : forall a b n d, 0 < a -> 0 < b ->
+  EMIN < fdiv_exp a b -> scale a b (fdiv_exp a b) = (n, d) -> 2 ^ 52 * d <= n /\ 0 < d.
+Proof.
+  intros a b n d Ha Hb. unfold fdiv_exp, PREC.
+  set (e0 := Z.log2 a - Z.log2 b - 53).
+  destruct (scale a b e0) as [n0 d0] eqn:S0.
+  destruct (norm_A a b Ha Hb n0 d0 S0) as [A D0].
+  destruct (n0 / d0 <? 2 ^ 53) eqn:C; intros HE S.
+  - replace (Z.max e0 EMIN) with e0 in S by lia. rewrite S0 in S. injection S as <- <-. auto.
+  - replace (Z.max (e0 + 1) EMIN) with (e0 + 1) in S by lia.
+    assert (H53 : 2 ^ 53 * d0 <= n0).
+    { pose proof (Z.mul_div_le n0 d0 D0). assert (2 ^ 53 <= n0 / d0) by lia. nia. }
+    split; [exact (norm_B a b e0 n0 d0 n d Hb S0 S H53)|].
+    destruct (Z_lt_le_dec 0 (e0 + 1)).
+    + rewrite scale_pos in S by lia. injection S as <- <-. pose proof (pow2_gt0 (e0 + 1) ltac:(lia)). nia.
+    + rewrite scale_nonpos in S by lia. injection S as <- <-. lia.
+Qed.
+
+Lemma scale_den_pos : forall a b e n d, 0 < b -> scale a b e = (n, d) -> 0 < d.
+Proof.
+  intros a b e n d Hb S. destruct (Z_lt_le_dec 0 e).
+  - rewrite scale_pos in S by lia. injection S as <- <-. pose proof (pow2_gt0 e ltac:(lia)). nia.
+  - rewrite scale_nonpos in S by lia. injection S as <- <-. lia.
+Qed.
+
+(* ---------------------------------------------------------------- one-sided soundness, all sizes *)
+(* Whenever Python's  (a / b) > L  is true for a finite limit L = m*2^e with m < 2^53, e >= -1074
+   (every binary64 value, every int below 2^53), the exact quotient exceeds L.  No bound on a, b. *)
+Lemma fdiv_gt_sound : forall a b m e q,
+  0 < a -> 0 < b -> m < 2 ^ 53 -> EMIN <= e ->
+  fdiv a b = Some q -> ratio_gt q (RFin m e) = true -> exceedsb a b (RFin m e) = true.
+Proof.
+  intros a b m e q Ha Hb Hm He F G.
+  unfold fdiv in F. set (E := fdiv_exp a b) in *.
+  destruct (scale a b E) as [n d] eqn:S.
+  destruct (dy_geb (rne n d, E) (1, 1024)); [discriminate|]. injection F as <-.
+  unfold ratio_gt in G. apply dy_gtb_true in G.
+  unfold exceedsb. apply dy_gtb_true.
+  pose proof (scale_den_pos a b E n d Hb S) as Dpos.
+  destruct (Z_le_gt_dec E e) as [Le|Gt].
+  - (* the limit is on the quotient's grid: rounding is monotone *)
+    replace (Z.min E e) with E in G by lia. rewrite Z.sub_diag, Z.pow_0_r, Z.mul_1_r in G.
+    set (R := 2 ^ (e - E)) in *. assert (HR : 0 < R) by (apply pow2_gt0; lia).
+    assert (Hn : n > m * R * d).
+    { destruct (Z_le_gt_dec n (m * R * d)) as [C|C]; [|exact C].
+      pose proof (rne_le n d (m * R) Dpos C). lia. }
+    destruct (Z_lt_le_dec 0 E) as [PE|PE].
+    + rewrite scale_pos in S by lia. injection S as <- <-.
+      replace (Z.min 0 e) with 0 by lia. rewrite !Z.sub_0_r, Z.pow_0_r.
+      replace e with ((e - E) + E) at 1 by lia. rewrite Z.pow_add_r by lia. fold R.
+      pose proof (pow2_gt0 E ltac:(lia)). nia.
+    + rewrite scale_nonpos in S by lia. injection S as <- <-.
+      set (P := 2 ^ (- E)) in *. assert (HP : 0 < P) by (apply pow2_gt0; lia).
+      destruct (Z_le_gt_dec 0 e) as [Pe|Ne].
+      * replace (Z.min 0 e) with 0 by lia. rewrite !Z.sub_0_r, Z.pow_0_r.
+        assert (ER : R = 2 ^ e * P).
+        { unfold R, P. rewrite <- Z.pow_add_r by lia. f_equal. lia. }
+        pose proof (pow2_gt0 e Pe). rewrite ER in Hn. nia.
+      * replace (Z.min 0 e) with e by lia. rewrite Z.sub_diag, Z.pow_0_r, Z.sub_0_l.
+        assert (EP : P = 2 ^ (- e) * R).
+        { unfold R, P. rewrite <- Z.pow_add_r by lia. f_equal. lia. }
+        pose proof (pow2_gt0 (- e) ltac:(lia)). rewrite EP in Hn. nia.
+  - (* the limit is finer than the quotient's grid: then it is below 2^52 ulps, hence below a/b *)
+    assert (HE : EMIN < E) by lia.
+    destruct (fdiv_exp_normal a b n d Ha Hb HE S) as [N _]. clear G.
+    destruct (Z_le_gt_dec m 0) as [M0|M0].
+    { (* non-positive limit *)
+      assert (0 < a * 2 ^ (0 - Z.min 0 e)).
+      { pose proof (pow2_gt0 (0 - Z.min 0 e) ltac:(lia)). nia. }
+      assert (m * b * 2 ^ (e - Z.min 0 e) <= 0).
+      { pose proof (pow2_gt0 (e - Z.min 0 e) ltac:(lia)). nia. }
+      lia. }
+    change (2 ^ 53) with (2 * 2 ^ 52) in Hm. set (c := 2 ^ 52) in *.
+    assert (Hc : 0 < c) by (unfold c; apply pow2_gt0; lia).
+    destruct (Z_lt_le_dec 0 E) as [PE|PE].
+    + rewrite scale_pos in S by lia. injection S as <- <-.
+      destruct (Z_le_gt_dec 0 e) as [Pe|Ne].
+      * replace (Z.min 0 e) with 0 by lia. rewrite !Z.sub_0_r, Z.pow_0_r.
+        assert (EE : 2 ^ E = 2 ^ e * 2 * 2 ^ (E - e - 1)).
+        { change 2 with (2 ^ 1) at 3. rewrite <- !Z.pow_add_r by lia. f_equal. lia. }
+        pose proof (pow2_gt0 e Pe). pose proof (pow2_gt0 (E - e - 1) ltac:(lia)).
+        rewrite EE in N. set (x := 2 ^ e) in *. set (y := 2 ^ (E - e - 1)) in *.
+        assert (m * b * x < 2 * c * b * x) by nia.
+        assert (2 * c * b * x <= c * (b * (x * 2 * y))) by nia.
+        lia.
+      * replace (Z.min 0 e) with e by lia. rewrite Z.sub_diag, Z.pow_0_r, Z.sub_0_l.
+        assert (E1 : 2 <= 2 ^ E).
+        { change 2 with (2 ^ 1) at 1. apply Z.pow_le_mono_r; lia. }
+        pose proof (pow2_gt0 (- e) ltac:(lia)).
+        set (x := 2 ^ E) in *. set (y := 2 ^ (- e)) in *.
+        assert (m * b < 2 * c * b) by nia.
+        assert (2 * c * b <= c * (b * x)) by nia.
+        assert (a <= a * y) by nia.
+        nia.
+    + rewrite scale_nonpos in S by lia. injection S as <- <-.
+      replace (Z.min 0 e) with e by lia. rewrite Z.sub_diag, Z.pow_0_r, Z.sub_0_l.
+      assert (EE : 2 ^ (- e) = 2 ^ (- E) * 2 * 2 ^ (E - e - 1)).
+      { change 2 with (2 ^ 1) at 4. rewrite <- !Z.pow_add_r by lia. f_equal. lia. }
+      pose proof (pow2_gt0 (- E) ltac:(lia)). pose proof (pow2_gt0 (E - e - 1) ltac:(lia)).
+      rewrite EE. set (x := 2 ^ (- E)) in *. set (y := 2 ^ (E - e - 1)) in *.
+      assert (m * b < 2 * c * b) by nia.
+      assert (2 * (c * b) <= 2 * (a * x)) by lia.
+      assert (2 * (a * x) <= a * (x * 2 * y)) by nia.
+      lia.
+Qed.
